@@ -503,7 +503,7 @@ func main() {
 	r.SetRule("one case = real tun.Pipe(X, Y) over two links, each bufconn (capacity 1..64 / 4096 / ~16384 / 65536), net.Pipe or loopback TCP, near ends wrapped by a Close recorder with an optional read-chunk limit; payloads of 0..~100000 random bytes per direction written in chunks of 1..9000; scenarios: clean-close / clean-halfclose (finisher writes everything, drains the opposite direction, closes), racy-close (closes after a seeded byte count while the other side may still write), fault-clean / fault-racy (near-end Read fails at offset k, with or without data in the same call, or near-end Write fails after accepting k bytes). Non-trivial: >= 1 byte arrived. Distinct by (link kinds, scenario, fault kind, finisher, size class of both payloads, read limits)")
 	r.Assume("when the other side is still writing at the moment one side ends, Pipe closes both streams at once and the tail of either direction may be cut: such cases are judged for order, closure and completion only (cut tails are counted)")
 	r.Assume("completion is awaited under a 60 s watchdog whose firing is INCONCLUSIVE")
-	n := r.Pick(1500, 60000)
+	n := r.Pick(1500, 30000)
 	par := runtime.GOMAXPROCS(0)
 	if par > 16 {
 		par = 16
